@@ -532,6 +532,25 @@ class linqset(linkseq[_T], MutableSequenceSet[_T]):
     def __contains__(self, value):
         return value in self.__table
 
+    def __setitem__(self, i, value) -> None:
+        'Set value(s) by index/slice, keeping the hash table in step.'
+        if isinstance(i, SupportsIndex):
+            leaving = (self._link_at(i).value,)
+        elif isinstance(i, slice):
+            leaving = tuple(self[i])
+        else:
+            raise Emsg.InstCheck(i, (SupportsIndex, slice))
+        super().__setitem__(i, value)
+        table = self.__table
+        for old in leaving:
+            table.pop(old, None)
+        if isinstance(i, slice):
+            links = iter_links_sliced(self, i)
+        else:
+            links = (self._link_at(i),)
+        for link in links:
+            table[link.value] = link
+
     def _link_of(self, value, /):
         try:
             return self.__table[value]
@@ -566,3 +585,9 @@ class linqset(linkseq[_T], MutableSequenceSet[_T]):
             departures.__contains__,
             filter(self.__contains__, arrivals)):
             raise Emsg.DuplicateValue(v)
+        # The arriving values must also be distinct from each other.
+        distinct = set()
+        for v in arrivals:
+            if v in distinct:
+                raise Emsg.DuplicateValue(v)
+            distinct.add(v)
